@@ -16,7 +16,7 @@ BUDGET = {"quick": 150, "thorough": 1500}
 ANCHORED = ["generate_bootstrap_samples", "generate_single_bootstrap_sample", "calculate_pandas_quantiles", "_align_sample_indices",
             "MetricFrame._populate_results_ci"]
 RULE = ("random frames: n<=40, 1..2 sensitive x 0..1 control features (skewed so that groups vanish in some resamples), "
-        "callable/dict metrics, n_boot in {1,2,5,12,30,100}, 1..4 quantiles in arbitrary order, integer seeds incl. 0. "
+        "callable/dict metrics, n_boot in {1,2,5,12,30,100}, 1..4 quantiles in arbitrary order (a value repeated in 20% of the cases), integer seeds incl. 0; entry index order = estimate's order. "
         "compose: RecordingMetric on id-valued data - every full-size invocation is one resample whose exact row multiset is "
         "observed (size n, ids from the data, row triples intact, duplicates present, resamples differ, every row drawn "
         "somewhere, identical sequence for an equal seed; each statistical claim is only asserted where its false-alarm "
